@@ -47,6 +47,8 @@ def run(ctx):
                    'the message / <facility|level>ident[pid]: message)', floor=8)
     chk.rule('R5', 'a record emitted through stdio is handed to the operating system (fflush/fclose of that stream) '
                    'before the output returns, hence before the real exec', floor=2)
+    chk.rule('R7', 'the destination named by the output argument is used whole: a copy of the argument into a fixed '
+                   'address/path field is offered the whole field (at most the terminator byte less)', floor=1)
     chk.rule('R6', 'error records are dispatched only when error logging is enabled', floor=1)
     chk.explanation = (
         'Structure of the single path action -> dispatch -> output table -> output, decided on all CFG paths; the '
@@ -66,6 +68,7 @@ def run(ctx):
     chk.count('outputs', len(outs))
     for o in outs:
         r4_framing(ctx, prog, cg, summ, o)
+        r7_destination(ctx, prog, o)
     r6_error(ctx, prog, cg, summ)
     # exactly one record per exec call: the action runs once per interposer call
     for F in common.entry_points(prog):
@@ -633,3 +636,57 @@ def r6_error(ctx, prog, cg, summ):
            'the error handler can emit while error logging is off (%s)' % (
                render((bad or unguarded)[0]) if (bad or unguarded) else 'no test of error_logging_enabled found'),
            how='the "disabled" edge of the error_logging_enabled test cannot reach the dispatcher')
+    # the handler may switch error logging back ON only where it found it on: a store of a non-zero value on a
+    # path that did not pass the "enabled" edge turns error logging on for a configuration that has it off
+    on_edges = {}
+    for b in tests:
+        ce = common.compare_edges(b, isx)
+        if ce is not None:
+            c, eq, ne = ce
+            on_edges[b.id] = eq if c == true_v else ne
+    for n in E.body.walk():
+        if n.k == 'BinaryOperator' and n.get('op') == '=' and isx(strip(n.ch[0])):
+            v = strip(n.ch[1]).get('v')
+            if v is not None and v == 0:
+                continue
+            g = common.guarded_at(E, n, lambda blk: on_edges.get(blk.id), lambda e: False)
+            chk.ob('R6', 'error-logging-only-restored-where-it-was-on', g, n.where(), E.name,
+                   '%s is executed on paths on which error logging was found (or never tested to be) off: after the '
+                   'first swallowed error the configuration has error logging on, and later errors of the same call '
+                   'produce extra records' % render(n)[:60],
+                   how='the store follows the "enabled" edge of the error_logging_enabled test on every path')
+
+
+def r7_destination(ctx, prog, o):
+    """the output argument (socket path, file path) reaches connect/open unshortened as far as the fixed field
+    allows: a bounded copy of it is offered capacity - 1 bytes or more.  One byte less than that and the longest
+    valid destination is silently replaced by a different one."""
+    from engine.bounds import SIZED_WRITERS
+    from engine.dataflow import PtrTaint
+    chk = ctx.chk
+    if len(o.params) < 2:
+        return
+    argp = o.params[1]['id']
+    pt = PtrTaint(o, lambda n: False, {argp})
+    for c in o.calls():
+        name = c.get('callee')
+        if name not in ('strncpy', 'memcpy', 'snprintf', 'strlcpy', '__builtin_strncpy'):
+            continue
+        di, si = SIZED_WRITERS.get(name, (0, 2 if name != 'snprintf' else 1))
+        args = c.ch[1:]
+        srcs = args[1:] if name != 'snprintf' else args[2:]
+        if not any(a is not None and pt.is_derived(a) for a in srcs):
+            continue
+        d = strip(args[di])
+        cap = (d.get('fieldSize') or {}).get('size') if d is not None and d.k == 'MemberExpr' else None
+        if cap is None and d is not None and d.k == 'DeclRefExpr':
+            for x in o.local_decls():
+                if x['id'] == d['ref']['id'] and 'arrayLen' in x:
+                    cap = x['size']
+        n = strip(args[si]).get('v') if si < len(args) else None
+        if cap is None or n is None:
+            continue
+        chk.ob('R7', 'destination-copied-whole[%s:%s]' % (o.name, render(d)[:30]), n >= cap - 1, c.where(), o.name,
+               '%s copies at most %d bytes of the output argument into a field of %d bytes: the longest destination the '
+               'field can hold is cut, and the record goes to (or is refused by) a different destination' % (render(c)[:60], n, cap),
+               how='%d of %d bytes offered' % (n, cap))
